@@ -1,5 +1,6 @@
 import PynProofs.SetOps
 import PynProofs.Diff
+import PynProofs.Union
 import PynModel.Core.ISet
 /-!
 # C02 — union / intersect / set_diff are the Boolean set operations on the time line
@@ -18,10 +19,13 @@ Proved here (all sizes, all coincidence patterns):
   hypothesis on the operands); for canonical operands every piece lies between intervals of B
   (`diff_between`, `diff_avoids`); together the C02 clause `diff_pointwise`: for x not an endpoint of B,
   x ∈ A.set_diff(B) ⇔ x ∈ A ∧ x ∉ B;
-* the **n-ary union** kernel `jitunion_isets` pointwise and exactly (`unionIsets_mem`).
-The pointwise statement for the BINARY `jitunion` (chain merging) and the duration identities are **not
-proved**: they are decided by the exhaustive order-type correspondence + pointwise oracle of the check
-(stated in the evidence).
+* **union, exactly**: the binary `jitunion` (skip / chain-merging / tails) pointwise for canonical operands —
+  `union_pointwise`: x in an emitted interval ⇔ x ∈ A ∨ x ∈ B (`PynProofs/Union.lean`: `unionSkip_spec`,
+  `unionChain_spec`, `jitunionLoop_spec`, `emitRest_spec`); corollaries `union_comm_pointwise`,
+  `union_idem_pointwise`; the **n-ary union** kernel `jitunion_isets` pointwise and exactly (`unionIsets_mem`).
+What remains outside the theorems: the 1-microsecond touch separation applied by the constructor to the kernel
+output (C01) and the duration identities; they are decided by the exhaustive order-type correspondence +
+pointwise oracle of the check (stated in the evidence).
 -/
 namespace Pyn.C02
 open Pyn
@@ -376,6 +380,56 @@ theorem diff_pointwise (s1 e1 s2 e2 : Array Int) (h1 : s1.size = e1.size) (h2 : 
     rcases diff_between s1 e1 s2 e2 h1 h2 hcA hcB k hk hk2 j hj with h | h <;> omega
   · rintro ⟨hA, hB⟩
     exact diff_complete s1 e1 s2 e2 h1 h2 x hA hB
+
+
+/-- **binary union, pointwise and exact**: for canonical A and B, an instant lies in an interval emitted by
+`jitunion` iff it lies in an interval of A or in an interval of B -/
+theorem union_pointwise (s1 e1 s2 e2 : Array Int) (h1 : s1.size = e1.size) (h2 : s2.size = e2.size)
+    (hcA : Canon s1 e1 h1) (hcB : Canon s2 e2 h2) (x : Int) :
+    InU (jitunion s1 e1 s2 e2 h1 h2) x ↔ InIv s1 e1 h1 x ∨ InIv s2 e2 h2 x := by
+  unfold jitunion
+  obtain ⟨q1, q2, q3, q4⟩ := jitunionLoop_spec s1 e1 s2 e2 h1 h2 hcA hcB 0 0 {} rfl (Nat.zero_le _)
+  obtain ⟨a1, a2⟩ := emitRest_spec s1 e1 h1 (jitunionLoop s1 e1 s2 e2 h1 h2 0 0 {}).1
+    (jitunionLoop s1 e1 s2 e2 h1 h2 0 0 {}).2.2 q1
+  obtain ⟨b1, b2⟩ := emitRest_spec s2 e2 h2 (jitunionLoop s1 e1 s2 e2 h1 h2 0 0 {}).2.1 _ a1
+  rw [b2 x, a2 x, q4 x]
+  have hA : InIv s1 e1 h1 x ↔ InRange s1 e1 h1 0 (jitunionLoop s1 e1 s2 e2 h1 h2 0 0 {}).1 x ∨
+      InRange s1 e1 h1 (jitunionLoop s1 e1 s2 e2 h1 h2 0 0 {}).1 s1.size x := by
+    constructor
+    · rintro ⟨a, ha, c, d⟩
+      rcases Nat.lt_or_ge a (jitunionLoop s1 e1 s2 e2 h1 h2 0 0 {}).1 with h | h
+      · exact Or.inl ⟨a, Nat.zero_le _, h, ha, c, d⟩
+      · exact Or.inr ⟨a, h, ha, ha, c, d⟩
+    · rintro (⟨a, _, _, ha, c, d⟩ | ⟨a, _, _, ha, c, d⟩) <;> exact ⟨a, ha, c, d⟩
+  have hB : InIv s2 e2 h2 x ↔ InRange s2 e2 h2 0 (jitunionLoop s1 e1 s2 e2 h1 h2 0 0 {}).2.1 x ∨
+      InRange s2 e2 h2 (jitunionLoop s1 e1 s2 e2 h1 h2 0 0 {}).2.1 s2.size x := by
+    constructor
+    · rintro ⟨a, ha, c, d⟩
+      rcases Nat.lt_or_ge a (jitunionLoop s1 e1 s2 e2 h1 h2 0 0 {}).2.1 with h | h
+      · exact Or.inl ⟨a, Nat.zero_le _, h, ha, c, d⟩
+      · exact Or.inr ⟨a, h, ha, ha, c, d⟩
+    · rintro (⟨a, _, _, ha, c, d⟩ | ⟨a, _, _, ha, c, d⟩) <;> exact ⟨a, ha, c, d⟩
+  rw [hA, hB]
+  have hemp : ¬ InU ({} : UOut) x := by rintro ⟨k, hk, _⟩; simp at hk
+  generalize InU ({} : UOut) x = P at hemp
+  generalize InRange s1 e1 h1 0 _ x = A1
+  generalize InRange s1 e1 h1 _ s1.size x = A2
+  generalize InRange s2 e2 h2 0 _ x = B1
+  generalize InRange s2 e2 h2 _ s2.size x = B2
+  grind
+
+
+/-- union is commutative, pointwise -/
+theorem union_comm_pointwise (s1 e1 s2 e2 : Array Int) (h1 : s1.size = e1.size) (h2 : s2.size = e2.size)
+    (hcA : Canon s1 e1 h1) (hcB : Canon s2 e2 h2) (x : Int) :
+    InU (jitunion s1 e1 s2 e2 h1 h2) x ↔ InU (jitunion s2 e2 s1 e1 h2 h1) x := by
+  rw [union_pointwise s1 e1 s2 e2 h1 h2 hcA hcB, union_pointwise s2 e2 s1 e1 h2 h1 hcB hcA]
+  exact Or.comm
+
+/-- union is idempotent, pointwise -/
+theorem union_idem_pointwise (s1 e1 : Array Int) (h1 : s1.size = e1.size) (hcA : Canon s1 e1 h1) (x : Int) :
+    InU (jitunion s1 e1 s1 e1 h1 h1) x ↔ InIv s1 e1 h1 x := by
+  rw [union_pointwise s1 e1 s1 e1 h1 h1 hcA hcA]; exact or_self_iff
 
 
 /-! non-vacuity of the hypotheses: canonical operands with shared endpoints, and an instant meeting them -/
